@@ -97,6 +97,7 @@ type replPair struct {
 	findings []string
 	maxMatch uint64
 	updates  int
+	blockF   int32 // 1: the follower cannot be reached (dials fail)
 }
 
 // onLeaderLoop runs fn in the goroutine that owns the leader's state (the stand-in for stateLoop) and waits for it.
@@ -174,6 +175,10 @@ func (p *replPair) pump() {
 }
 
 func (p *replPair) dial(network, address string, timeout time.Duration) (net.Conn, error) {
+	if address == "M2:8888" && atomic.LoadInt32(&p.blockF) == 1 {
+		time.Sleep(2 * time.Millisecond)
+		return nil, fmt.Errorf("replpair: %s is unreachable", address)
+	}
 	if address != "M2:8888" {
 		select {
 		case <-p.down:
@@ -230,6 +235,68 @@ func (p *replPair) lead() bool {
 		time.Sleep(2 * time.Millisecond)
 	}
 	return false
+}
+
+// leadWithout makes the node leader of a new term with the (invented) vote of node 3; the follower is not asked.
+func (p *replPair) leadWithout() bool {
+	deadline := time.Now().Add(10 * time.Second)
+	started := false
+	for time.Now().Before(deadline) {
+		isLeader := false
+		p.onLeaderLoop(func() {
+			if p.n.cur == Leader {
+				isLeader = true
+				return
+			}
+			if !started || p.n.cur == Follower {
+				p.n.timeout()
+				started = true
+				return
+			}
+			select {
+			case v := <-p.n.c.respCh:
+				p.n.voteResult(v)
+			default:
+				p.n.voteResult(rpcResponse{response: &voteResp{resp{p.n.r.term, success, nil}}, from: 3})
+			}
+			isLeader = p.n.cur == Leader
+		})
+		if isLeader {
+			return true
+		}
+		time.Sleep(2 * time.Millisecond)
+	}
+	return false
+}
+
+// staleTail appends k entries of a leader that never existed (node 3, term t) to the follower's log: an uncommitted tail
+// that the real leader's entries must replace.
+func (p *replPair) staleTail(t uint64, k int) bool {
+	f := p.f
+	f.mu.Lock()
+	defer f.mu.Unlock()
+	li, lt := f.r.lastLogIndex, f.r.lastLogTerm
+	var es []*entry
+	for i := 0; i < k; i++ {
+		es = append(es, &entry{index: li + 1 + uint64(i), term: t, typ: entryUpdate, data: []byte{9, byte(i)}})
+	}
+	q := &appendReq{req: req{t, 3}, prevLogIndex: li, prevLogTerm: lt, numEntries: uint64(k)}
+	cn, _ := simConn(wireReq(q, wireEntries(es)))
+	b, err := cn.bufr.ReadByte()
+	if err != nil {
+		return false
+	}
+	rpc := &rpc{req: rpcType(b).createReq(), conn: cn, done: make(chan struct{})}
+	ok := true
+	func() {
+		defer func() {
+			if recover() != nil {
+				ok = false
+			}
+		}()
+		f.r.replyRPC(rpc)
+	}()
+	return ok && rpc.resp != nil && rpc.resp.getResult() == success
 }
 
 func (p *replPair) stepDown() {
@@ -324,7 +391,7 @@ func replpairRound(rnd *rand.Rand, base string, round int, dist map[string]int) 
 		dist["replpair/no-initial-match"]++
 		return
 	}
-	scenario := round % 3
+	scenario := round % 4
 	switch scenario {
 	case 0:
 		// answers outstanding in the pipeline, the follower handles ONE more request, then the connection is cut
@@ -385,6 +452,38 @@ func replpairRound(rnd *rand.Rand, base string, round int, dist map[string]int) 
 		p.appendEntries(2)
 		time.Sleep(60 * time.Millisecond)
 		p.onLeaderLoop(func() { p.oracle("in the second leadership") })
+		if !p.waitMatch(p.lastIndex(), 10*time.Second) {
+			dist["replpair/no-final-match"]++
+		}
+	case 3:
+		// the follower holds a longer, stale tail (entries of a deposed leader); it is unreachable while the node leads again
+		// and appends; when it can be reached, the first probe matches the common prefix and the follower reports its longer
+		// log: only what the probe proved may count as matched
+		atomic.StoreInt32(&p.blockF, 1)
+		p.cutConns()
+		p.stepDown()
+		var t uint64
+		p.onLeaderLoop(func() { t = p.n.r.term })
+		if !p.staleTail(t+1, 4+rnd.Intn(4)) {
+			dist["replpair/no-stale-tail"]++
+			return
+		}
+		p.onLeaderLoop(func() { p.n.timeout() }) // term t+1: lost; the next election is for a term above the stale entries
+		p.onLeaderLoop(func() {
+			if p.n.cur == Candidate {
+				p.n.timeout()
+			}
+		})
+		if !p.leadWithout() {
+			dist["replpair/no-second-leadership"]++
+			return
+		}
+		for b := 0; b < 4; b++ {
+			p.appendEntries(2 + rnd.Intn(3))
+			time.Sleep(3 * time.Millisecond)
+		}
+		time.Sleep(80 * time.Millisecond) // the replication is in its retry loop and has seen the leader's updates
+		atomic.StoreInt32(&p.blockF, 0)
 		if !p.waitMatch(p.lastIndex(), 10*time.Second) {
 			dist["replpair/no-final-match"]++
 		}
